@@ -40,10 +40,11 @@ const (
 	kNoQueryMark
 	kHijack
 	kIgnoreAtParamChild
+	kIgnoreCloneWith
 	nKinds
 )
 
-var kindNames = [...]string{"direct(2 params)", "ignored-slash", "redirect", "404", "405", "OPTIONS", "Lookup+Close", "Lookup+Clone", "handler-CloneWith", "handler-Clone-stash", "hostname-direct", "infix-catch-all", "iterators-left-early", "handler-Lookup-inside", "ignored-slash-Clone-stash", "static-hostname-ignored-slash+Lookup-inside", "two-infix-catch-alls-ignored-slash", "hostname-infix-catch-all-ignored-slash", "405-after-backtracking-in-the-hostname-tree", "no-query-string+handler-adds-a-query-value+Clone-stash", "handler-hijacks-the-connection-before-writing", "ignored-slash-where-the-walk-stops-at-a-parameter-child"}
+var kindNames = [...]string{"direct(2 params)", "ignored-slash", "redirect", "404", "405", "OPTIONS", "Lookup+Close", "Lookup+Clone", "handler-CloneWith", "handler-Clone-stash", "hostname-direct", "infix-catch-all", "iterators-left-early", "handler-Lookup-inside", "ignored-slash-Clone-stash", "static-hostname-ignored-slash+Lookup-inside", "two-infix-catch-alls-ignored-slash", "hostname-infix-catch-all-ignored-slash", "405-after-backtracking-in-the-hostname-tree", "no-query-string+handler-adds-a-query-value+Clone-stash", "handler-hijacks-the-connection-before-writing", "ignored-slash-where-the-walk-stops-at-a-parameter-child", "ignored-slash+handler-CloneWith"}
 
 // world is one router plus the bookkeeping of one execution.
 type world struct {
@@ -262,6 +263,16 @@ func newWorld(withHost bool) *world {
 		w.stashClone(c, c.Clone())
 		w.respond(c)
 	}))
+	// a slash-adjusted match whose handler wraps its context with CloneWith: the clone and, afterwards, the parent
+	// still show the current request's values
+	must(f.Handle("GET", "/icw/{a}/", func(c fox.Context) {
+		w.observe(c, "/icw/{a}/", fox.RouteHandler, []string{"a"}, true)
+		cc := c.CloneWith(fx.WrapRW(fx.NewRW()), c.Request())
+		w.observe(cc, "/icw/{a}/", fox.RouteHandler, []string{"a"}, true)
+		cc.Close()
+		w.observe(c, "/icw/{a}/", fox.RouteHandler, []string{"a"}, true)
+		w.respond(c)
+	}, fox.WithIgnoreTrailingSlash(true)))
 	// a slash-adjusted match found where the walk stops at the very beginning of a parameter child of the leaf
 	must(f.Handle("GET", "/tw/{a}/foo", func(c fox.Context) {
 		w.observe(c, "/tw/{a}/foo", fox.RouteHandler, []string{"a"}, true)
@@ -420,6 +431,8 @@ func (w *world) issue(kind int) {
 		w.f.ServeHTTP(rw, w.req("GET", "", "/nq/"+tok+"a"))
 	case kIgnoreAtParamChild:
 		w.f.ServeHTTP(rw, w.req("GET", "", "/tw/"+tok+"a/foo/"))
+	case kIgnoreCloneWith:
+		w.f.ServeHTTP(rw, w.req("GET", "", "/icw/"+tok+"a"))
 	case kHijack:
 		w.f.ServeHTTP(hijackRW{rw}, w.req("GET", "", "/hj/"+tok+"a"))
 		if rw.Code != 0 || len(rw.Body) != 0 {
@@ -751,7 +764,7 @@ func init() {
 	mc.Register(&mc.Check{
 		ID:    "C12",
 		Level: "model_checking",
-		Rule: "every sequence up to a length of requests from a 22-kind alphabet (direct, ignored slash, redirect, 404, 405, OPTIONS, manual Lookup(+Clone), CloneWith, Clone, hostname, infix catch-all, every iterator consumed fully and left at its first element, a handler doing a Lookup for another request, a slash-adjusted match whose handler keeps a Clone, a static-hostname slash-adjusted match whose handler looks up another slash-adjusted request), with an optional tree replacement before each request, x EVERY answer of the context pool at every Pool.Get (any of the pooled contexts or a fresh one: data choice points of the controlled scheduler); every request carries a unique token in every observable field and every Context getter is checked inside every handler; stashed clones are re-read after every later request; " +
+		Rule: "every sequence up to a length of requests from a 23-kind alphabet (direct, ignored slash, redirect, 404, 405, OPTIONS, manual Lookup(+Clone), CloneWith, Clone, hostname, infix catch-all, every iterator consumed fully and left at its first element, a handler doing a Lookup for another request, a slash-adjusted match whose handler keeps a Clone, a static-hostname slash-adjusted match whose handler looks up another slash-adjusted request), with an optional tree replacement before each request, x EVERY answer of the context pool at every Pool.Get (any of the pooled contexts or a fresh one: data choice points of the controlled scheduler); every request carries a unique token in every observable field and every Context getter is checked inside every handler; stashed clones are re-read after every later request; " +
 			"plus two-thread schedules; distinct_nontrivial = distinct (sequence, outcome) classes",
 		Assumptions: []string{
 			"sync.Pool may return any previously Put object or a fresh one: the shim makes that choice explicit and the explorer enumerates it",
@@ -768,7 +781,7 @@ func init() {
 				} else {
 					seqs = sequences(maxLen, kinds, true)
 				}
-				r.Bounds["sequences"] = fmt.Sprintf("%d sequences (22 kinds; quick: all of length<=2 with tree replacement + length 3 over 11 kinds; thorough: all of length<=3 with tree replacement), unbounded exploration of pool answers", len(seqs))
+				r.Bounds["sequences"] = fmt.Sprintf("%d sequences (23 kinds; quick: all of length<=2 with tree replacement + length 3 over 11 kinds; thorough: all of length<=3 with tree replacement), unbounded exploration of pool answers", len(seqs))
 				for i, s := range seqs {
 					if !c.Mine(i) {
 						continue
